@@ -45,3 +45,8 @@ reg("C18", "exploration", "bounded-exhaustive enumeration of port expressions / 
     "All port expressions of depth<=2 over ~, indexing, slicing and + on every base port (width 0..3, all inversion masks, i/o/io) of the three port classes; Buffer on simulation ports for every legal/illegal direction pair and every valuation; "
     "FFBuffer full reachable graphs vs one register per direction; Buffer/FFBuffer on real ports evaluated through the fine netlist and the RTLIL text with exactly-one-use and DriverConflict checks.",
     "Trusted: vf/ref/c18_ref.py and the small netlist/RTLIL evaluators in vf/ref/c18_netlist.py. DDRBuffer and platform overrides are out of scope of the statement.")
+reg("C04", "translation_validation", "co-execution: emitted RTLIL parsed and interpreted by an independent RTLIL interpreter, driven in lock-step with the real simulator over exhaustive stimuli (all valuations / joint-state BFS)",
+    "Every program (expression batches from the C01 term space, statement batches from the C02 module-term space placed flat and split over child/grandchild/sibling modules, sequential designs: counters in "
+    "pos/neg/async-reset domains, two-domain designs, memories, FIFOs, CDC cells) is converted with back.rtlil.convert; the text is interpreted under the published cell semantics and compared with the Python "
+    "simulator on every output/register after every step: all input valuations for comb programs, register states loaded into both sides for sync programs, breadth-first joint state graph for sequential designs.",
+    "Trusted: vf/rtlil/parse.py + vf/rtlil/interp.py (written from the Yosys cell library documentation; cannot be cross-checked against Yosys here), triage of each disagreement against vf/ref. Undefined RTLIL points (read-port power-on value) are compared under the 0 interpretation.")
